@@ -33,6 +33,9 @@ type c02case struct {
 	// Served: the nonce stream is delivered by a servedReader (answers produced by another goroutine while the caller's
 	// stack is moved) and the call is made on a fresh goroutine
 	Served bool
+	// Pool: the stream is delivered by a poolReader (a type with Len() that reports at most 16 buffered bytes and hands
+	// out at most 16 bytes per Read)
+	Pool bool
 }
 
 func c02solve(kinds []string, keyClass, eClass string) (c c02case, ok bool) {
@@ -172,6 +175,10 @@ func c02eval(r *vx.R, c c02case) {
 	}
 	c.Served = true
 	c02evalOne(r, c)
+	if !c.Pool {
+		c.Served, c.Pool = false, true
+		c02evalOne(r, c)
+	}
 }
 
 func c02evalOne(r *vx.R, c c02case) {
@@ -188,7 +195,9 @@ func c02evalOne(r *vx.R, c c02case) {
 	var rr, ss []byte
 	var err error
 	var kind, msg string
-	if c.Served {
+	if c.Pool {
+		kind, msg = vx.Try(func() { rr, ss, err = sm2.SignHashed(poolReader{rd}, d, e) })
+	} else if c.Served {
 		onFresh(func() { kind, msg = vx.Try(func() { rr, ss, err = sm2.SignHashed(&servedReader{inner: rd}, d, e) }) })
 	} else {
 		kind, msg = vx.Try(func() { rr, ss, err = sm2.SignHashed(rd, d, e) })
@@ -223,7 +232,7 @@ func c02evalOne(r *vx.R, c c02case) {
 	if len(rr) != 32 || len(ss) != 32 {
 		r.Violation("sign:length", fmt.Sprintf("r,s lengths %d,%d", len(rr), len(ss)), c)
 	}
-	r.Shape(fmt.Sprintf("%v:%s:%s:served=%v", c.Kinds, c.Key, c.E, c.Served))
+	r.Shape(fmt.Sprintf("%v:%s:%s:served=%v:pool=%v", c.Kinds, c.Key, c.E, c.Served, c.Pool))
 }
 
 type c02bad struct {
@@ -392,6 +401,30 @@ func TestVX_C02(t *testing.T) {
 			c.Kinds = []string{fmt.Sprintf("%s x%d", kd, m), "OK"}
 			c02eval(r, c)
 		}
+	}
+	// (g) four million all-zero candidates in a row before the first acceptable one (a signer whose cost per rejected
+	// candidate is not constant - a stack frame, a retained buffer - gives up long before)
+	if vx.MineIdx(5) {
+		r.Eval(1)
+		const N = 4000000
+		d := modN(bi(vx.Fill("c02longrun-d", 32)))
+		e := vx.Fill("c02longrun-e", 32)
+		k := b32(modN(bi(vx.Fill("c02longrun-k", 32))))
+		want, werr := sm2ref.Sign(stream(k), d, e)
+		if werr != nil {
+			panic(werr)
+		}
+		rd := &zeroRunReader{n: N * 32, tail: append(append([]byte{}, k...), b32(big.NewInt(0x5555))...)}
+		var rr, ss []byte
+		var err error
+		cs := c02case{Kinds: []string{fmt.Sprintf("K0 x%d", N), "OK"}, Key: "seeded", E: "seeded", D: vx.Hex(b32(d)), Digest: vx.Hex(e)}
+		kind, msg := vx.Try(func() { rr, ss, err = sm2.SignHashed(rd, b32(d), e) })
+		if kind != "" || err != nil {
+			r.Violation("sign:long-run:fail", fmt.Sprintf("%d rejected candidates then an acceptable one: %s %v", N, msg, err), cs)
+		} else if !bytes.Equal(rr, want.R) || !bytes.Equal(ss, want.S) || rd.pos != N*32+32 {
+			r.Violation("sign:long-run:wrong", fmt.Sprintf("%d rejected candidates then an acceptable one: wrong signature or %d bytes consumed (want %d)", N, rd.pos, N*32+32), cs)
+		}
+		r.Shape("long-run:K0")
 	}
 	// (f) a nonce whose x1 = x([k]G) lies within 2^224 of the top (x1 > 2n - 2^256), found once by a 2^32 search and kept
 	// as a witness (checked here against the reference): only for such a nonce can e + x1 reach 2n, so that (e + x1) mod n
